@@ -8,7 +8,7 @@
 set -u
 cd "$(dirname "$0")"
 export CARGO_NET_OFFLINE=true
-export VERIF_DIR="$(pwd)"
+export VERIF_DIR="${DLTSIM_OUT_DIR:-$(pwd)}"   # DLTSIM_OUT_DIR: scratch output dir for experiments (seeded_eval.sh)
 SIM=sim
 BIN=$SIM/target/release/dltsim
 
